@@ -39,7 +39,30 @@ FIXED = [
     ('not', ['negand'], 1, {1: ('not', None)}),
     ('number', ['from', 'grouping separator', 'decimal separator'], 3, {3: ('number', None)}),
     ('string', ['from'], 1, {1: ('string', None)}),
+    # numeric, string-case and duration built-ins (DMN 1.3 tables 70, 72, 74)
+    ('abs', ['n'], 1, {1: ('abs', None)}),
+    ('ceiling', ['n'], 1, {1: ('ceiling', None)}),
+    ('floor', ['n'], 1, {1: ('floor', None)}),
+    ('decimal', ['n', 'scale'], 2, {2: ('decimal', None)}),
+    ('modulo', ['dividend', 'divisor'], 2, {2: ('modulo', None)}),
+    ('sqrt', ['number'], 1, {1: ('sqrt', None)}),
+    ('log', ['number'], 1, {1: ('log', None)}),
+    ('exp', ['number'], 1, {1: ('exp', None)}),
+    ('odd', ['number'], 1, {1: ('odd', None)}),
+    ('even', ['number'], 1, {1: ('even', None)}),
+    ('lower_case', ['string'], 1, {1: ('lower_case', None)}),
+    ('upper_case', ['string'], 1, {1: ('upper_case', None)}),
+    ('duration', ['from'], 1, {1: ('duration', None)}),
+    ('years_and_months_duration', ['from', 'to'], 2, {2: ('years_and_months_duration', None)}),
 ]
+# positional form only under contract (the named forms take alternative parameter name sets or are not implemented)
+POS_ONLY = [
+    ('after', {2: ('after', None)}), ('before', {2: ('before', None)}), ('coincides', {2: ('coincides', None)}),
+    ('date', {1: ('date_1', None), 3: ('date_3', None)}), ('date_and_time', {1: ('date_and_time_1', None), 2: ('date_and_time_2', None)}),
+    ('time', {1: ('time_1', None), 3: ('time_3', None), 4: ('time_4', None)}),
+]
+# f(list1, list2, ...): every argument is handed to the core function (no single-argument shortcut)
+LIST_VARIADIC = ['concatenate', 'union']
 # f(list) or f(e1, e2, ...)
 VARIADIC = ['all', 'any', 'min', 'max', 'sum', 'mean', 'median', 'mode', 'stddev']
 
@@ -59,17 +82,22 @@ def gen_core_stubs():
         for k, (core, pad) in arities.items():
             n = k + (1 if pad else 0)
             seen[core] = n
+    for (_, arities) in POS_ONLY:
+        for k, (core, pad) in arities.items():
+            seen[core] = k
     for core, n in sorted(seen.items()):
         ps = ', '.join('a%d: Value' % i for i in range(n))
         lines.append('pub uninterp spec fn spec_core_%s(%s) -> Value;' % (core, ps))
-    for v in VARIADIC:
+    lines.append('pub uninterp spec fn spec_core_append(list: Value, items: Seq<Value>) -> Value;')
+    for v in VARIADIC + LIST_VARIADIC:
         lines.append('pub uninterp spec fn spec_core_%s(items: Seq<Value>) -> Value;' % v)
     lines.append('pub mod core {')
     lines.append('  use super::*;')
     for core, n in sorted(seen.items()):
         ps = ', '.join('a%d: &Value' % i for i in range(n))
         lines.append('  #[verifier::external_body] pub fn %s(%s) -> (r: Value) ensures r == spec_core_%s(%s) { unimplemented!() }' % (core, ps, core, ', '.join('*a%d' % i for i in range(n))))
-    for v in VARIADIC:
+    lines.append('  #[verifier::external_body] pub fn append(list: &Value, items: &[Value]) -> (r: Value) ensures r == spec_core_append(*list, items@) { unimplemented!() }')
+    for v in VARIADIC + LIST_VARIADIC:
         lines.append('  #[verifier::external_body] pub fn %s(values: &[Value]) -> (r: Value) ensures r == spec_core_%s(values@) { unimplemented!() }' % (v, v))
     lines.append('}')
     return '\n'.join(lines)
@@ -129,6 +157,20 @@ def variadic_positional(v):
                          '(parameters@.len() > 1 ==> r == spec_core_stddev(parameters@)) && ((parameters@.len() == 1 && !(parameters@[0] is List)) ==> r is Null)')],
             'sig_rewrite': [(r'fn bif_' + v + r'\(', 'pub fn pos_bif_' + v + '(')]}
 
+def list_variadic_positional(v):
+    return {'kind': 'fn', 'src': PF, 'path': 'fn bif_' + v, 'key': 'dispatch::positional::bif_' + v, 'props': P, 'auto_props': A, 'loops': 0,
+            'ret': 'r', 'rewrites': [R3, ('RX', 'R11', r'super::core::', 'core::', None)],
+            'ensures': [('no_arguments_is_null', 'parameters@.len() == 0 ==> r is Null'),
+                        ('all_arguments_reach_the_function', 'parameters@.len() >= 1 ==> r == spec_core_%s(parameters@)' % v)],
+            'sig_rewrite': [(r'fn bif_' + v + r'\(', 'pub fn pos_bif_' + v + '(')]}
+
+def append_positional():
+    return {'kind': 'fn', 'src': PF, 'path': 'fn bif_append', 'key': 'dispatch::positional::bif_append', 'props': P, 'auto_props': A, 'loops': 0,
+            'ret': 'r', 'rewrites': [R3, ('RX', 'R11', r'&parameters\[1\.\.\]', 'vstd::slice::slice_subrange(parameters, 1, parameters.len())', 1)],
+            'ensures': [('fewer_than_two_arguments_is_null', 'parameters@.len() < 2 ==> r is Null'),
+                        ('list_and_items', 'parameters@.len() >= 2 ==> r == spec_core_append(parameters@[0], parameters@.subrange(1, parameters@.len() as int))')],
+            'sig_rewrite': [(r'fn bif_append\(', 'pub fn pos_bif_append(')]}
+
 def variadic_named(v):
     return {'kind': 'fn', 'src': NF, 'path': 'fn bif_' + v, 'key': 'dispatch::named::bif_' + v, 'props': P, 'auto_props': A, 'loops': 0,
             'ret': 'r', 'rewrites': [R3, ('RX', 'R9', r'&(NAME_\w+)', lambda m: '&' + m.group(1).lower() + '()', None)],
@@ -151,6 +193,7 @@ UNIT = {
         {'kind': 'item', 'src': V, 'path': 'enum Value'},
         {'kind': 'item', 'src': V, 'path': 'macro_rules! value_null'},
         {'kind': 'vrs', 'file': 'dispatch/prelude.vrs'},
+        {'kind': 'vrs', 'file': 'common/value_traits.vrs'},
         {'kind': 'text', 'note': 'generated-core-stubs', 'text': gen_core_stubs()},
         {'kind': 'text', 'note': 'generated-name-constants (literals extracted from named.rs lazy_static)', 'text': _consts},
         {'kind': 'item', 'src': NF, 'path': 'type NamedParameters'},
@@ -161,10 +204,11 @@ UNIT = {
          'ensures': [('lookup', 'r is Some == (parameters is NamedParameters && parameters->NamedParameters_0@.contains_key(*name))'),
                      ('value', 'r is Some ==> *r->Some_0.0 == parameters->NamedParameters_0@[*name].0 && *r->Some_0.1 == parameters->NamedParameters_0@[*name].1')]},
     ] + [positional_part(*e) for e in FIXED] + [named_part(*e) for e in FIXED]
-      + [variadic_positional(v) for v in VARIADIC] + [variadic_named(v) for v in VARIADIC],
+      + [variadic_positional(v) for v in VARIADIC] + [variadic_named(v) for v in VARIADIC]
+      + [positional_part(w, [], 0, ar) for (w, ar) in POS_ONLY] + [list_variadic_positional(v) for v in LIST_VARIADIC] + [append_positional()],
 }
 NOT_DECIDED = {'C08': ['what each core function computes is uninterpreted here (see unit bifs for the list/position functions); '
-                       'append, concatenate and union have no named form; temporal and range built-ins are not in the table',
+                       'after / before / coincides / date / time / date and time / append / concatenate / union: positional form only; the remaining range and calendar built-ins (meets, overlaps, during, includes, starts, finishes, is, product, day of week, ...) are not implemented in the code base (they answer null) and are not claimed',
                        'that the evaluator passes the right Bif tag to evaluate_bif (match arms of evaluate_bif are not under contract)']}
 ASSUMPTIONS = ['the table FIXED/VARIADIC is transcribed from DMN 1.3 section 10.3.4 (parameter names and order)',
                'R9: `&NAME_X` lazy_static constants -> stubs returning spec_name(literal), literal extracted from named.rs on every run',
